@@ -2,4 +2,4 @@
 # register a property module in main.rs/mod.rs
 id=$1; lc=$(echo $id | tr 'A-Z' 'a-z')
 grep -q "pub mod $lc;" /verif/harness/src/props/mod.rs || echo "pub mod $lc;" >> /verif/harness/src/props/mod.rs
-grep -q "\"$id\"" /verif/harness/src/main.rs || sed -i "s|    vec!\[|    vec![\n        (\"$id\", props::$lc::run as RunFn, props::$lc::replay as ReplayFn),|" /verif/harness/src/main.rs
+grep -q "(\"$id\"" /verif/harness/src/main.rs || sed -i "s|    vec!\[|    vec![\n        (\"$id\", props::$lc::run as RunFn, props::$lc::replay as ReplayFn),|" /verif/harness/src/main.rs
